@@ -74,6 +74,31 @@ func siteFromStack(stack string) string {
 	return "?"
 }
 
+// hangSite: the innermost livesim2 function of the goroutine that is serving the request.
+func hangSite() string {
+	buf := make([]byte, 4<<20)
+	n := runtime.Stack(buf, true)
+	for _, g := range strings.Split(string(buf[:n]), "\n\n") {
+		if !strings.Contains(g, "main.serveOne") {
+			continue
+		}
+		for _, l := range strings.Split(g, "\n") {
+			if strings.HasPrefix(l, "\t") || !strings.Contains(l, "Dash-Industry-Forum/livesim2") {
+				continue
+			}
+			f := l
+			if i := strings.LastIndex(f, "/"); i >= 0 {
+				f = f[i+1:]
+			}
+			if i := strings.LastIndex(f, "("); i > 0 {
+				f = f[:i]
+			}
+			return f
+		}
+	}
+	return "?"
+}
+
 // normKind drops the request-specific details of a panic value.
 func normKind(v string) string {
 	s := strings.TrimPrefix(v, "runtime error: ")
@@ -213,11 +238,11 @@ func workerMain() {
 			case o = <-done:
 				break wait
 			case <-deadline:
-				o = c08obs{Class: "hang", Raw: "no response within 5 s"}
+				o = c08obs{Class: "hang", Raw: "no response within 5 s", Site: hangSite()}
 				break wait
 			case <-tick.C:
 				if memHit.Load() {
-					o = c08obs{Class: "hang", Raw: "handler kept allocating (heap above 3 GB), stopped"}
+					o = c08obs{Class: "hang", Raw: "handler kept allocating (heap above 3 GB), stopped", Site: hangSite()}
 					break wait
 				}
 			}
